@@ -451,6 +451,11 @@ type info struct {
 func replayObject(c *rp.Ctx, kr *keyring, cs *joseCase, salt int, rng *rand.Rand) rp.Result {
 	k1, k2, names := kr.pair(cs.Keykind, salt)
 	payload := ld.FillBytes(cs.Size, 16, c.Seed+salt) // size 0: an empty, non-nil slice
+	if cs.Size == 4096 {
+		// the size class 4096 stands for a highly redundant payload (deflates by far more than 10:1):
+		// what matters for the compressed variants is the ratio, not the length
+		payload = bytes.Repeat([]byte{0}, 4096)
+	}
 	var aad []byte
 	if cs.Aad > 0 {
 		aad = ld.FillBytes(cs.Aad, 61, c.Seed+salt)
